@@ -268,6 +268,31 @@ impl Iterator for Probe {
     }
 }
 
+/// Where the zero-sized probe keeps its script (a real stateless iterator would read a static, a file, a device, …).
+pub static ZCORE: std::sync::atomic::AtomicPtr<ProbeCore> = std::sync::atomic::AtomicPtr::new(std::ptr::null_mut());
+
+/// Owning probe whose *type* is zero-sized (`size_of::<ZstProbe>() == 0`): all its state lives outside the value.
+pub struct ZstProbe;
+
+impl ZstProbe {
+    fn core(&self) -> &mut ProbeCore {
+        // one virtual thread runs at a time; an overlap of two `next()` calls shows in the trace, it is no race in the harness
+        unsafe { &mut *ZCORE.load(Ordering::Relaxed) }
+    }
+}
+
+impl Iterator for ZstProbe {
+    type Item = Elem;
+
+    fn next(&mut self) -> Option<Elem> {
+        self.core().step().map(|(v, _)| Elem::new(v))
+    }
+
+    fn size_hint(&self) -> (usize, Option<usize>) {
+        self.core().size_hint()
+    }
+}
+
 /// Owning probe of zero-sized elements (payload 0).
 pub struct ZProbe(pub ProbeCore);
 
